@@ -117,6 +117,18 @@ def diff(a, b):
     return {k: (a.get(k), b.get(k)) for k in sorted(set(a) | set(b), key=str) if a.get(k) != b.get(k)}
 
 
+def model_ok(cfg):
+    """the documented rules (ctxmodel) accept this configuration, every (scheme, category) window included"""
+    try:
+        m = Model(cfg)
+        for sch in m.names:
+            for cat in [None] + sorted(m.cats):
+                m.rounds_window(sch, cat)
+    except ConfigError:
+        return False
+    return True
+
+
 def mk(cfg):
     from passlib.context import CryptContext
 
@@ -200,7 +212,7 @@ def o_roundtrip(rec: Recorder, case, soft=False):
         return
     st, ctx = call(mk, cfg)
     if st == "err":
-        rec.count("config:rejected")
+        rec.fail(f"C10/valid-config-rejected/{type(ctx).__name__}", "a configuration that is consistent per the documented rules is rejected", "roundtrip", case, repr(ctx), "accepted", soft=soft)
         return
     bank = bank_for(cfg)
     before = observe(ctx, bank)
@@ -298,7 +310,10 @@ def o_fault(rec: Recorder, case, soft=False):
     cfg, kind, pos, how = case["config"], case["kind"], case["position"], case["how"]
     st, ctx = call(mk, cfg)
     if st == "err":
-        rec.count("config:rejected")
+        if not model_ok(cfg):
+            rec.count("config:invalid-skipped")
+            return
+        rec.fail(f"C10/valid-config-rejected/{type(ctx).__name__}", "a configuration that is consistent per the documented rules is rejected", "fault", case, repr(ctx), "accepted", soft=soft)
         return
     bank = bank_for(cfg)
     before = observe(ctx, bank)
